@@ -15,6 +15,8 @@ import CM.Generated.Fn
 import CM.Model.Lookup
 import CM.Model.Account
 import CM.Model.RateLimit
+import CM.Model.FileLock
+import CM.Model.OCSP
 namespace CM.Tie.Fn
 open CM.Go CM.Lookup
 
@@ -366,5 +368,56 @@ theorem C17_tie_fn_SetMaxEvents (ring : List T) (c W n : Nat) :
 
 
 end RL
+
+/-! ### `fileLockIsStale` (C08) and `currentOCSP` (C14): functions over `time.Time` -/
+
+/-- `time.Since(ref) > 10 s` on instants counted from the zero time, saturation included -/
+theorem since_gt (now ref : Nat) :
+    decide (time_Sub (Int.ofNat now) (Int.ofNat ref) > (5000000000 : Int) * (2 : Int))
+      = decide (now - ref > 2 * 5000000000) := by
+  unfold time_Sub maxDuration minDuration
+  apply decide_eq_decide.mpr
+  by_cases h1 : Int.ofNat now - Int.ofNat ref > 9223372036854775807
+  · rw [if_pos h1]; simp only [Int.ofNat_eq_natCast] at h1; constructor <;> intro _ <;> omega
+  · rw [if_neg h1]
+    by_cases h2 : Int.ofNat now - Int.ofNat ref < -9223372036854775808
+    · rw [if_pos h2]; simp only [Int.ofNat_eq_natCast] at h1 h2; constructor <;> intro _ <;> omega
+    · rw [if_neg h2]; simp only [Int.ofNat_eq_natCast] at h1 h2 ⊢; constructor <;> intro _ <;> omega
+
+/-- **the model's `stale` IS the translated `fileLockIsStale`**, with the constants of the source inside
+it (`lockFreshnessInterval` = 5 s, factor 2 = `codeParams`): for all instants (nanoseconds since the zero
+time; `0` = the zero `time.Time`), saturation of `time.Since` included. -/
+theorem C08_tie_fn_fileLockIsStale (now created updated : Nat) :
+    CM.Gen.Fn.fileLockIsStale (Int.ofNat now) ⟨Int.ofNat created, Int.ofNat updated⟩
+      = CM.FileLock.stale CM.FileLock.codeParams now created updated := by
+  unfold CM.Gen.Fn.fileLockIsStale CM.FileLock.stale CM.FileLock.codeParams
+  simp only [since_gt, time_IsZero]
+  by_cases hu : updated = 0
+  · subst hu; simp
+  · have hz : (Int.ofNat updated == 0) = false := by simp; omega
+    simp [hu]
+
+/-- **the model's `current` IS the translated `currentOCSP`**: for every response whose NextUpdate, when
+present, is a real instant (not the zero time), with an absent NextUpdate handed over as the zero time. -/
+theorem C14_tie_fn_currentOCSP (now : Int) (r : CM.OCSP.Resp)
+    (hnu : ∀ nu, r.nextUpdate = some nu → nu ≠ 0) :
+    CM.Gen.Fn.currentOCSP now ⟨r.thisUpdate, r.nextUpdate.getD 0⟩ = CM.OCSP.current now r := by
+  unfold CM.Gen.Fn.currentOCSP CM.OCSP.current
+  simp only [time_Before, time_After, time_IsZero]
+  cases hn : r.nextUpdate with
+  | none =>
+    simp only [Option.getD_none, beq_self_eq_true, Bool.true_or, Bool.and_true]
+    by_cases h : r.thisUpdate ≤ now
+    · have : ¬ now < r.thisUpdate := by omega
+      simp [h, this]
+    · have : now < r.thisUpdate := by omega
+      simp [h, this]
+  | some nu =>
+    have hz : (nu == 0) = false := by simpa using hnu nu hn
+    simp only [Option.getD_some, hz, Bool.false_or]
+    by_cases h : r.thisUpdate ≤ now <;> by_cases h2 : now ≤ nu
+    all_goals (first | (have a : ¬ now < r.thisUpdate := by omega) | (have a : now < r.thisUpdate := by omega))
+    all_goals (first | (have b : ¬ now > nu := by omega) | (have b : now > nu := by omega))
+    all_goals simp [h, h2, a, b]
 
 end CM.Tie.Fn
